@@ -2761,6 +2761,15 @@ func parseChecksByNodeMeta(
 			results = append(results, healthCheck)
 		}
 	}
+	// The result also depends on the nodes' metadata: a change there moves checks
+	// in or out of the result without touching any check, so the nodes index has
+	// to count as well - otherwise the watch above wakes the query up only for it
+	// to see the same index and go back to sleep.
+	if len(filters) > 0 {
+		if nodeIdx := catalogNodesMaxIndex(tx, entMeta, peerName); nodeIdx > idx {
+			idx = nodeIdx
+		}
+	}
 	return idx, results, nil
 }
 
